@@ -53,6 +53,7 @@ class Path(object):
         self.max_depth = 0
         self.notes = []
         self.inputs = {}          # name -> symbolic value, for counterexample extraction
+        self.overapprox = []      # external raise-sets taken on this path (over-approximations)
         self.pure = 0             # >0: inside a scope where real branching is not allowed
 
     # ---- solver
